@@ -124,15 +124,15 @@ def job_sweepjit(job):
         from mchap.assemble.likelihood import log_likelihood
 
         llk = log_likelihood(reads, genotype)
-        for it in range(50):
+        for it in range(120):
             g0 = genotype.copy()
             llk, _ = mutation.compound_step(genotype, reads, llk, n_alleles, math.log(2.0) * n)
             changed |= g0 != genotype
         r.evaluations += 1
-        r.traces += 50
+        r.traces += 120
         r.nontrivial += 1
         if not changed.all():
-            r.violation("sweep-jit|P=%d|n=%d" % (P, n), "%d (haplotype, site) pairs never mutated in 50 compiled sweeps on flat reads, e.g. sites %r" % ((~changed).sum(), np.where(~changed.all(axis=0))[0][:6].tolist()), payload)
+            r.violation("sweep-jit|P=%d|n=%d" % (P, n), "%d (haplotype, site) pairs never mutated in 120 compiled sweeps on flat reads, e.g. sites %r" % ((~changed).sum(), np.where(~changed.all(axis=0))[0][:6].tolist()), payload)
         r.outcome((P, n, int(changed.sum())))
     r.sample({"compiled_sweep": [(2, 130), (2, 200), (1, 258), (4, 129)]})
     return r
